@@ -80,6 +80,7 @@ int main(void)
             else {
                 long long off = (unsigned char*)p - ch.data;
                 printf("W region %lld", off);
+                if (off < 0 || off + a > (long long)ch.capacity) { printf(" OUTSIDE\n"); fflush(stdout); exit(5); }
                 wbeg = off; wn = a;
                 memset(p, 0xEE, (size_t)a);               /* the writer may write at once */
                 for (long long i = 0; i < a; ++i) if (off + i >= 0 && off + i < (long long)ch.capacity) shadow[off + i] = -1;
